@@ -18,6 +18,7 @@
 EXTENDS Naturals, Integers, Sequences, FiniteSets, TLC
 
 CONSTANTS SAdd(_,_), SMul(_,_), SNeg(_), SDiv(_,_), SFn(_,_), SPow(_,_), SDPow(_,_), SZero, SOne,
+          AdjCanon(_,_),
           MaxOps,        \* operations added on top of the leaves
           MaxPasses,     \* backward passes per behaviour
           Ops,           \* subset of {"add","mul","neg","cfma","csq"}
